@@ -8,7 +8,7 @@ from fractions import Fraction as F
 from sa import term as T
 from sa.interp import SObj, SVar
 from sa.kernel import P, run_kernel
-from sa.load import AnalysisError, Repo, loc
+from sa.load import AnalysisError, Repo, loc, where_of
 from sa.report import Run
 from sa.term import Rat
 from sa.units import Unit
@@ -138,6 +138,25 @@ class World:
         return self.model.val
 
 
+def clip_by_window(w, sub, cut, later):
+    """polygon ∩ {t >= cut} (later) or ∩ {t <= cut} through the public Frame.chop: a chopper at the frame's own
+    distance (a shear by zero) with the single window [cut, far] or [-far, cut], far beyond every vertex.
+    Returns (kind, Subframe or None)."""
+    d0 = w.scalar('d0', M, 2)
+    frame = w.frame(d0, [sub])
+    far = w.scalar('far', SEC, 10 ** 6 if later else -10 ** 6)
+    o = w.model.array(w.it, [cut if later else far], 'cutout')
+    c = w.model.array(w.it, [far if later else cut], 'cutout')
+    ch = w.it.construct(w.chop_cls, [], {'distance': d0, 'time_open': o, 'time_close': c}, None)
+    kind, res = w.call(w.repo.func(MOD, 'Frame.chop'), [ch], bound=frame)
+    if kind != 'return':
+        return kind, res
+    subs = res.attrs.get('subframes') if isinstance(res, SObj) else None
+    if not isinstance(subs, list | tuple) or len(subs) > 1:
+        raise AnalysisError(f'Frame.chop with one subframe and one window reports {subs!r}')
+    return kind, (subs[0] if subs else None)
+
+
 def points(sub) -> list:
     """(time term, wavelength term) of every vertex of a Subframe object."""
     if not isinstance(sub, SObj):
@@ -187,7 +206,7 @@ def run(tier: str) -> Run:
               'symbols with exact rational witness values; every comparison the code makes is decided at the witness, '
               'the vertices it reports stay exact terms, and they are compared with a reference model written from the '
               'definition (shear t + d*lambda*m_n/h; polygon ∩ {t >= open} ∩ {t <= close}).  Decided: (R1) the shear, '
-              'its composition law, Subframe.propagate_by and Frame.propagate_to; (R2) _chop equals the half-plane '
+              'its composition law, Subframe.propagate_by and Frame.propagate_to; (R2) chopping by one window edge equals the half-plane '
               'intersection for every order type of 3- and 4-vertex polygons against the cut (below / on / above per '
               'vertex, both directions), as exact terms for generic order types and numerically on the cut; (R3) '
               'Frame.chop refuses a chopper in front of the frame and otherwise reports exactly the polygons of the '
@@ -244,8 +263,8 @@ def run(tier: str) -> Run:
     r1.check(ok, 'Frame.propagate_to', loc(ffi), {'outcome': kind}, key='propagate_to')
 
     # ---- R2: _chop against the half-plane intersection, every order type ---------------------------
-    r2 = run.rule('R2', '_chop == polygon ∩ half-plane for every order type of the vertices against the cut', 200)
-    cfi = repo.func(MOD, '_chop')
+    r2 = run.rule('R2', 'chopping by one window edge (Frame.chop, chopper at the distance of the frame, far other edge) == polygon ∩ half-plane for every order type of the vertices against the cut', 200)
+    cwhere = where_of(repo, MOD, '_chop', 'Frame.chop')
     level = {'below': 1, 'on': 2, 'above': 3}
     bad2 = {}
     n_runs = 0
@@ -258,13 +277,13 @@ def run(tier: str) -> Run:
                 wv = [F(k + 1) + F(k * k, 7) for k in range(n)]
                 sub = w.subframe('S', tv, wv)
                 cut = w.scalar('cut', SEC, 2)
-                kind, res = w.call(cfi, [sub, cut], {'close_to_open': later})
+                kind, res = clip_by_window(w, sub, cut, later)
                 n_runs += 1
                 want_pts = clip.half_plane(points(sub), cut.term, later, w.val())
                 generic = 'on' not in pattern
                 inst = ('generic' if generic else 'vertex on the cut') + (' t>=cut' if later else ' t<=cut')
                 if kind != 'return':
-                    bad2.setdefault(inst, {'pattern': pattern, 'problem': f'_chop raises {res}'})
+                    bad2.setdefault(inst, {'pattern': pattern, 'problem': f'chop raises {res}'})
                     continue
                 if res is None:
                     if clip.dedupe(clip.numeric(want_pts, w.val())):
@@ -277,7 +296,7 @@ def run(tier: str) -> Run:
                     bad2.setdefault(inst, {'pattern': pattern, 'reported': show_poly(got_pts, w.val()), 'expected': show_poly(want_pts, w.val()),
                                            'note': 'equal at the witness but not as exact terms' if okn else 'different polygon'})
     for inst in ('generic t>=cut', 'generic t<=cut', 'vertex on the cut t>=cut', 'vertex on the cut t<=cut'):
-        r2.check(inst not in bad2, inst, loc(cfi), bad2.get(inst, {}), key=inst)
+        r2.check(inst not in bad2, inst, cwhere, bad2.get(inst, {}), key=inst)
     for _ in range(n_runs - 4):
         r2.ok('order type')
 
@@ -289,7 +308,7 @@ def run(tier: str) -> Run:
         sub = w.subframe('R', (1, 3, 3, 1), (1, 1, 5, 5), shared_w=(0, 0, 1, 1))
         cut = w.scalar('cut', SEC, 2)
         cut.members[TAG] = 'Acut'
-        kind, res = w.call(cfi, [sub, cut], {'close_to_open': later})
+        kind, res = clip_by_window(w, sub, cut, later)
         detail = {'outcome': kind}
         ok = False
         if kind == 'return' and isinstance(res, SObj):
@@ -303,7 +322,7 @@ def run(tier: str) -> Run:
             detail = {'intersection_wavelength_tags': tags, 'intersection_time_tags': ttags,
                       'meaning': 'A<k>: bit-exactly endpoint k / the cut; I or none: equal only up to rounding',
                       'consumer': 'Subframe.is_regular compares time/wavelength with =='}
-        r5.check(ok, 'exact for equal endpoints' + (' t>=cut' if later else ' t<=cut'), loc(cfi), detail, key='lerp-exact')
+        r5.check(ok, 'exact for equal endpoints' + (' t>=cut' if later else ' t<=cut'), cwhere, detail, key='lerp-exact')
 
     # ---- R3: Frame.chop ---------------------------------------------------------------------------------------
     r3 = run.rule('R3', 'Frame.chop: refuses a chopper in front of the frame; otherwise exactly the polygons of subframe x window', 4)
